@@ -54,6 +54,26 @@ def register_generated(module_ast, code):
             GENERATED[id(const)] = (const, defs[const.co_name])
 
 
+class StaleSource(RuntimeError):
+    """a source file was modified after the running process imported it: line numbers of the
+    live code objects no longer point at their definitions (reported as an engine error --
+    the run has to be repeated on a quiescent tree)"""
+
+
+_PROC_START = __import__("time").time()
+
+
+def _check_fresh(code):
+    import os
+
+    fn = code.co_filename
+    try:
+        if fn.endswith(".py") and os.path.getmtime(fn) > _PROC_START:
+            raise StaleSource(f"{fn} was modified while the check was running")
+    except OSError:
+        pass
+
+
 def func_ast(f):
     code = f.__code__
     gen = GENERATED.get(id(code))
@@ -66,8 +86,12 @@ def func_ast(f):
             src = textwrap.dedent(inspect.getsource(f.__code__))
         except (OSError, TypeError):
             src = _frozen_source(f)
+        _check_fresh(code)
         tree = ast.parse(src)
         node = tree.body[0]
+        if isinstance(node, ast.FunctionDef) and code.co_name not in ("<lambda>", node.name):
+            raise StaleSource(f"{code.co_filename}:{code.co_firstlineno}: expected def {code.co_name}, found def {node.name} "
+                              "(the source file changed after it was imported)")
         if isinstance(node, ast.Expr) or not isinstance(node, (ast.FunctionDef, ast.Lambda)):
             # lambda assigned in an expression etc.
             lam = [n for n in ast.walk(tree) if isinstance(n, ast.Lambda)]
